@@ -9,6 +9,13 @@ SPEC = os.path.join(VERIF, "spec", "hist")
 def run(tier, seed):
     chk = vlib.Check(PID, tier, seed)
     quick = tier == "quick"
+    d = os.path.join(VERIF, "spec", "data")
+    vlib.tlc_check(chk, "UnitMapBucket: hash bucket as coded (locked map/unmap with tombstone reuse, lock-free lookup), exhaustive",
+                   os.path.join(d, "UnitMapBucket.tla"), os.path.join(d, "UnitMapBucketMC.cfg" if quick else "UnitMapBucketMC3.cfg"), timeout=1200)
+    r = vlib.tlc_check(chk, "UnitMapBucket with free_unit before unmap (must be violated)", os.path.join(d, "UnitMapBucket.tla"),
+                       os.path.join(d, "UnitMapBucketEarly.cfg"), timeout=300, expect="violation")
+    if not r["violated"]:
+        raise vlib.Broken("the free-before-unmap variant of UnitMapBucket is not rejected: the invariants are vacuous")
     optsets = [("nes=%d" % n, "coll=%d" % c, "fail=%d" % f, "csched=%d" % s) for n in (0, 1, 2) for (c, f, s) in ((1, 0, 0), (1, 1, 0), (1, 1, 1), (0, 1, 1), (1, 0, 1))]
     vlib.history_check(chk, "d_upool", ["umap"], "H_UnitMap", quick, seed, nseeds_quick=100, nseeds_thorough=2000, optsets=optsets, free_runs=150,
                        what="call log of the user-defined pools (create_unit / free_unit / push / pop), lookups and association changes are not explained by the unit-map specification",
